@@ -139,6 +139,18 @@ CLAIMED = {
             "guard page placed directly after maxlen bytes; size bound len+3 asserted on every text.",
             "Trusted: normalisation oracle (truncate to maxlen, strip trailing zeros, NaNs unified, -0 != +0).",
             "property-based pair testing with prefix/equality oracle + guard-page fault injection", "5 C15"),
+    "C13": ("mx", "exploration",
+            "Thousands of short runs of 2-8 free-running plain threads on one mutex_db (seeded operation mixes and "
+            "perturbation plans); the stamped history must be per-key linearizable; every returned lock handle is "
+            "inspected (hit <=> owns_lock()), held hits are re-read and must not change, no operation called after "
+            "a hit returned may complete before it is released; a progress watchdog detects a leaked lock; ASan + "
+            "UBSan (quick) and additionally a ThreadSanitizer build (thorough) turn unlocked accesses into reports.",
+            "The harness does not own this schedule (std::mutex acquisition cannot be made a scheduling point "
+            "without rewriting mutex_art.hpp): interleaving coverage is best effort and runs are not "
+            "bit-reproducible (a replay re-runs the failing configuration up to 200 times); the oracle itself is "
+            "timing independent.",
+            "randomized concurrent stress with history oracles (linearizability, lock-handle and pinning "
+            "invariants) + sanitizers", "5 C13"),
     "C16": ("cfgx", "exploration",
             "One seeded generator (independent of the build) produces histories of point operations and scans on all "
             "three index classes (uint64 keys, byte-string keys <= 8 bytes); 16 executor binaries - {AVX2,SSE4.1} x "
@@ -210,6 +222,9 @@ def main():
             {"name": "qsbr_fault", "path": "src/fault", "serves_properties": ["C08"],
              "kind_free_text": "generated QSBR scripts with the k-th-allocation fault loop around resume / thread "
                                "start / deallocation request; built without sanitizers, links test_heap.cpp"},
+            {"name": "mx", "path": "src/mutex", "serves_properties": ["C13"],
+             "kind_free_text": "seeded run-configuration generator over free-running std::threads; oracles over the "
+                               "stamped history; ASan+UBSan build and TSan build"},
             {"name": "cfgx", "path": "src/cfgdiff", "serves_properties": ["C16"],
              "kind_free_text": "model-free executor compiled in 16 build configurations; check.py diffs result / "
                                "statistics hashes and delta-debugs disagreements"},
